@@ -15,6 +15,7 @@ EXPLANATION = (
     "the blob lock) that is still held at the index push of that record. D3: no std::sync guard is live at any yield. "
     "D4: append offsets come only from the atomic reservation (same instances as C07.H3). Decides these structural necessary "
     "conditions of deadlock-freedom and non-interleaved appends; linearizability of observed values is not decided.")
+EXPLANATION += (" " + 'D5 = C04.T7 instances (check-then-act on the active slot must happen under one guard).')
 ASSUMPTIONS = ["lock identity is abstracted to (lock crate, protected type): unique per class in this crate (checked against the ADT field table)"]
 
 SELF_LOOP_EXCEPTIONS = {
@@ -244,9 +245,17 @@ def d4(ctx, rid):
     c07.h3(ctx, rid)
 
 
+def d5(ctx, rid):
+    """check-then-act on the active slot under one guard: an assignment never overwrites a blob another client may have written to
+    (C04.T7 instances)"""
+    import props.c04 as c04
+    c04.t7(ctx, rid)
+
+
 RULES = [
     Rule('C08.D1', 'the wait-for graph over lock classes, the bounded worker channel and task joins has no cycle with conflicting modes', d1, 1),
     Rule('C08.D2', 'every record append on a blob is made with exclusive access that is still held at the index push of that record', d2, 2),
     Rule('C08.D3', 'no std::sync guard is live at a suspension point', d3, 1),
+    Rule('C08.D5', 'the active slot is assigned only where it was seen empty through the exclusive guard in hand (no check-then-act across two acquisitions)', d5, 4),
     Rule('C08.D4', 'append offsets originate only in the atomic size reservation; the counter is only loaded / fetch_add-ed', d4, 5),
 ]
